@@ -242,3 +242,8 @@ E.extend([
  ('C20', 'break', SM, "        elbow = elbow0 + [seg0_line_trimmed] + elbowq + [seg1_line_trimmed] + elbow1", "        elbow = elbow0 + elbowq + [seg1_line_trimmed] + elbow1", 'curve-curve elbow drops a connecting line'),
  ('C20', 'benign', SM, "        b = (2 - tightness)*a\n        elbow = CubicBezier(q - a*v, q - (a - b/3)*v, q + (a - b/3)*w, q + a*w)", "        b = (2 - tightness)*a\n        inner = a - b/3\n        elbow = CubicBezier(q - a*v, q - inner*v, q + inner*w, q + a*w)", 'name the inner offset'),
 ])
+
+E.append(('C13', 'benign', P, "        seg_global_min = min(extrema, key=itemgetter(0))\n        seg_global_max = max(extrema, key=itemgetter(0))", "        seg_global_min = min(extrema, key=lambda e: e[0])\n        seg_global_max = max(extrema, key=lambda e: e[0])", 'lambda key instead of itemgetter'))
+
+E.append(('C16', 'benign', P, "        if t0 == 0 and t1 == 1:\n            if self._length_info['bpoints'] == self.bpoints() \\\n                    and self._length_info['error'] <= error \\", "        if t0 == 0 and t1 == 1:\n            current_key = self.bpoints()\n            if self._length_info['bpoints'] == current_key \\\n                    and self._length_info['error'] <= error \\", 'cache key held in a local'))
+E.append(('C16', 'break', P, "            if self._length_info['bpoints'] == self.bpoints() \\\n                    and self._length_info['error'] <= error \\\n                    and self._length_info['min_depth'] >= min_depth:", "            if self._length_info['bpoints'] == self.bpoints() \\\n                    and self._length_info['error'] <= error \\\n                    and self._length_info['min_depth'] <= min_depth:", 'cubic min_depth guard direction'))
